@@ -161,7 +161,18 @@ pub fn handle_datagram(
             case.class("parsed");
             if lib("has_flags", || packet.has_flags(PacketFlag::RESPONSE))? {
                 let mut guard = store.write().map_err(|_| Fail::new("c14:lock-poisoned", "the record store lock is poisoned"))?;
-                let r = meter::catch(|| verif_add_response_to_resources(packet, service_name, full_name, &mut guard, on_discovery));
+                // every third response goes through the async (tokio) copy of the ingestion step
+                let use_async = buf.len() % 3 == 0;
+                let r = meter::catch(|| {
+                    if use_async {
+                        let rt = tokio::runtime::Builder::new_current_thread().build().unwrap();
+                        let (tx, _rx) = tokio::sync::mpsc::channel(4);
+                        let mut ch = if on_discovery.is_some() { Some(tx) } else { None };
+                        rt.block_on(simple_mdns::verif::verif_add_response_to_resources_async(packet, service_name, full_name, &mut guard, &mut ch))
+                    } else {
+                        verif_add_response_to_resources(packet, service_name, full_name, &mut guard, on_discovery)
+                    }
+                });
                 drop(guard);
                 if let Err(p) = r {
                     let mut f: Fail = p.into();
@@ -422,7 +433,7 @@ fn check_socket(count: &u32, case: &mut Case) -> Result<(), Fail> {
 pub fn def() -> CheckDef {
     CheckDef {
         id: "C14",
-        rule: "(1) pure pipeline, proptest: a store pre-loaded by 0..7 random operations (as C13) plus a canary record; sequences of 1..19 datagrams drawn from {empty, 1..11 bytes, random bytes, reference encodings with hostile names and 0..8 mutations, valid queries, valid responses, responses under the watched service with hostile instance labels (non-UTF-8, 63 bytes, dots), 1000..9000-byte datagrams}; each datagram goes, step for step, through what the three receive loops do (responder: header peek with unwrap_or(true), parse, build_reply, build_bytes_vec_compressed; discovery: parse, add_response_to_resources under a real RwLock write guard with and without an on_discovery channel, or build_reply; application: get_known_services; one-shot resolver: header peek on a 4096-byte buffer, parse, answer scan). Oracle: no panic, lock not poisoned, every reply parses, the canary is still answered. (2) real sockets, sampled: a real SimpleMdnsResponder and ServiceDiscovery on loopback multicast receive 300 (6000 thorough) generated datagrams between two probe queries, and a real OneShotMdnsResolver issues queries while generated responses about the name it asks for (every RDATA kind, also empty RDATA under the asked types) arrive; violation iff a library thread panicked or the responder stops answering; skipped (no claim) when multicast is unusable. Non-trivial = a datagram shorter than 12 bytes or a parsed datagram with hostile names",
+        rule: "(1) pure pipeline, proptest: a store pre-loaded by 0..7 random operations (as C13) plus a canary record; sequences of 1..19 datagrams drawn from {empty, 1..11 bytes, random bytes, reference encodings with hostile names and 0..8 mutations, valid queries, valid responses, responses under the watched service with hostile instance labels (non-UTF-8, 63 bytes, dots), 1000..9000-byte datagrams}; each datagram goes, step for step, through what the three receive loops do (responder: header peek with unwrap_or(true), parse, build_reply, build_bytes_vec_compressed; discovery: parse, add_response_to_resources (sync, or the async-tokio copy for every third response) under a real RwLock write guard with and without an on_discovery channel, or build_reply; application: get_known_services; one-shot resolver: header peek on a 4096-byte buffer, parse, answer scan). Oracle: no panic, lock not poisoned, every reply parses, the canary is still answered. (2) real sockets, sampled: a real SimpleMdnsResponder and ServiceDiscovery on loopback multicast receive 300 (6000 thorough) generated datagrams between two probe queries, and a real OneShotMdnsResolver issues queries while generated responses about the name it asks for (every RDATA kind, also empty RDATA under the asked types) arrive; violation iff a library thread panicked or the responder stops answering; skipped (no claim) when multicast is unusable. Non-trivial = a datagram shorter than 12 bytes or a parsed datagram with hostile names",
         assumptions: vec![
             "the pure pipeline copies the loop bodies (simple_responder.rs, service_discovery.rs, oneshot_resolver.rs); an edit to the loops themselves is only visible to the socket section",
             "reader/writer interleavings on the shared store are not explored",
